@@ -49,6 +49,9 @@ type RecBackend struct {
 	clients []*broker.Client
 	byConn  map[interface{}]*broker.Client
 
+	// FailSkipPrefix: calls made for clients whose id has this prefix are
+	// neither counted nor failed (keeps witnesses out of injected failures).
+	FailSkipPrefix string
 	// FailHook: name -> fail the n-th call (1-based) of that hook with ErrHook.
 	FailHook map[string]int
 	hookN    map[string]int
@@ -70,9 +73,12 @@ func (r *RecBackend) rec(c Call) {
 	r.mu.Unlock()
 }
 
-func (r *RecBackend) fail(hook string) bool {
+func (r *RecBackend) fail(hook string, c *broker.Client) bool {
 	r.mu.Lock()
 	defer r.mu.Unlock()
+	if r.FailSkipPrefix != "" && c != nil && strings.HasPrefix(c.ID(), r.FailSkipPrefix) {
+		return false
+	}
 	if r.hookN == nil {
 		r.hookN = map[string]int{}
 	}
@@ -170,7 +176,7 @@ func tag(m *packet.Message) string {
 func (r *RecBackend) Authenticate(c *broker.Client, user, password string) (bool, error) {
 	seq := r.EL.Add(memconn.Event{Actor: "backend", Op: "Authenticate", Note: c.ID()})
 	r.rec(Call{Seq: seq, Hook: "Authenticate", Client: c, ID: c.ID()})
-	if r.fail("Authenticate") {
+	if r.fail("Authenticate", c) {
 		return false, ErrHook
 	}
 	return r.MemoryBackend.Authenticate(c, user, password)
@@ -180,7 +186,7 @@ func (r *RecBackend) Authenticate(c *broker.Client, user, password string) (bool
 func (r *RecBackend) Setup(c *broker.Client, id string, clean bool) (broker.Session, bool, error) {
 	seq := r.EL.Add(memconn.Event{Actor: "backend", Op: "Setup", Note: fmt.Sprintf("%s clean=%v", id, clean)})
 	r.rec(Call{Seq: seq, Hook: "Setup", Client: c, ID: id, Clean: clean})
-	if r.fail("Setup") {
+	if r.fail("Setup", c) {
 		return nil, false, ErrHook
 	}
 	s, resumed, err := r.MemoryBackend.Setup(c, id, clean)
@@ -196,7 +202,7 @@ func (r *RecBackend) Setup(c *broker.Client, id string, clean bool) (broker.Sess
 func (r *RecBackend) Restore(c *broker.Client) error {
 	seq := r.EL.Add(memconn.Event{Actor: "backend", Op: "Restore", Note: c.ID()})
 	r.rec(Call{Seq: seq, Hook: "Restore", Client: c, ID: c.ID()})
-	if r.fail("Restore") {
+	if r.fail("Restore", c) {
 		return ErrHook
 	}
 	return r.MemoryBackend.Restore(c)
@@ -206,7 +212,7 @@ func (r *RecBackend) Restore(c *broker.Client) error {
 func (r *RecBackend) Subscribe(c *broker.Client, subs []packet.Subscription, ack broker.Ack) error {
 	seq := r.EL.Add(memconn.Event{Actor: "backend", Op: "Subscribe", Note: fmt.Sprint(c.ID(), subs)})
 	r.rec(Call{Seq: seq, Hook: "Subscribe", Client: c, ID: c.ID()})
-	if r.fail("Subscribe") {
+	if r.fail("Subscribe", c) {
 		return ErrHook
 	}
 	return r.MemoryBackend.Subscribe(c, subs, ack)
@@ -216,7 +222,7 @@ func (r *RecBackend) Subscribe(c *broker.Client, subs []packet.Subscription, ack
 func (r *RecBackend) Unsubscribe(c *broker.Client, topics []string, ack broker.Ack) error {
 	seq := r.EL.Add(memconn.Event{Actor: "backend", Op: "Unsubscribe", Note: fmt.Sprint(c.ID(), topics)})
 	r.rec(Call{Seq: seq, Hook: "Unsubscribe", Client: c, ID: c.ID()})
-	if r.fail("Unsubscribe") {
+	if r.fail("Unsubscribe", c) {
 		return ErrHook
 	}
 	return r.MemoryBackend.Unsubscribe(c, topics, ack)
@@ -226,7 +232,7 @@ func (r *RecBackend) Unsubscribe(c *broker.Client, topics []string, ack broker.A
 func (r *RecBackend) Publish(c *broker.Client, msg *packet.Message, ack broker.Ack) error {
 	seq := r.EL.Add(memconn.Event{Actor: "backend", Op: "Publish", Topic: msg.Topic, Tag: tag(msg), QoS: int(msg.QOS), Ret: msg.Retain, Note: c.ID()})
 	r.rec(Call{Seq: seq, Hook: "Publish", Client: c, ID: c.ID(), Msg: msg.Copy(), Tag: tag(msg), QoS: msg.QOS, Retain: msg.Retain})
-	if r.fail("Publish") {
+	if r.fail("Publish", c) {
 		return ErrHook
 	}
 	wrapped := ack
@@ -264,7 +270,7 @@ func (r *RecBackend) Publish(c *broker.Client, msg *packet.Message, ack broker.A
 
 // Dequeue hook.
 func (r *RecBackend) Dequeue(c *broker.Client) (*packet.Message, broker.Ack, error) {
-	if r.fail("Dequeue") {
+	if r.fail("Dequeue", c) {
 		return nil, nil, ErrHook
 	}
 	return r.MemoryBackend.Dequeue(c)
@@ -274,7 +280,7 @@ func (r *RecBackend) Dequeue(c *broker.Client) (*packet.Message, broker.Ack, err
 func (r *RecBackend) Terminate(c *broker.Client) error {
 	seq := r.EL.Add(memconn.Event{Actor: "backend", Op: "Terminate", Note: c.ID()})
 	r.rec(Call{Seq: seq, Hook: "Terminate", Client: c, ID: c.ID()})
-	if r.fail("Terminate") {
+	if r.fail("Terminate", c) {
 		// the memory backend must still learn about it, otherwise the session stays taken
 		_ = r.MemoryBackend.Terminate(c)
 		return ErrHook
